@@ -307,6 +307,65 @@ def h2_blocked_eof_case(seed):
     return desc, fails
 
 
+def h2_slow_client_case(seed):
+    """The client lets its 65535-octet window fill, waits longer than keep_alive_timeout and only then grants credit: the
+    stream is open all along, so the timer must not fire, and the response is delivered in full however slowly it is consumed."""
+    import h2.config
+    import h2.connection
+
+    rng = random.Random(seed)
+    T = rng.choice([0.3, 1.0])
+    stall = rng.choice([T * 2, T * 5])
+    first, last = rng.choice([(60000, 10000), (65535, 1), (30000, 50000)])
+
+    async def app(scope, receive, send, sleep, records, now):
+        rec = {"kind": "http", "start": now(), "path": scope["path"], "scope": {}, "received": [], "sends": []}
+        records.append(rec)
+        await send({"type": "http.response.start", "status": 200, "headers": []})
+        await send({"type": "http.response.body", "body": b"a" * first, "more_body": True})
+        await sleep(0.1)
+        await send({"type": "http.response.body", "body": b"b" * last, "more_body": False})
+        rec["end"] = now()
+
+    c = h2.connection.H2Connection(h2.config.H2Configuration(client_side=True, header_encoding=None))
+    c.initiate_connection()
+    c.send_headers(1, [(b":method", b"GET"), (b":path", b"/a"), (b":scheme", b"https"), (b":authority", b"x")], end_stream=True)
+    opening = c.data_to_send()
+    c.increment_flow_control_window(100000, 1)
+    c.increment_flow_control_window(100000, None)
+    credit = c.data_to_send()
+    script = [("send", opening), ("sleep", stall), ("send", credit), ("sleep", 0.5)]
+    fails = []
+    desc = {"seed": seed, "carrier": "h2", "note": "slow-client", "T": T, "stall": stall, "body": first + last}
+    for backend, run in (("asyncio", W.run_asyncio), ("trio", W.run_trio)):
+        res = run(app, make_cfg(T), script, alpn="h2", tail=stall + T * 5 + 50)
+        # an observer with windows wide open parses what the server wrote
+        import h2.events
+
+        obs = h2.connection.H2Connection(h2.config.H2Configuration(client_side=True, header_encoding=None))
+        obs.initiate_connection()
+        obs.send_headers(1, [(b":method", b"GET"), (b":path", b"/a"), (b":scheme", b"https"), (b":authority", b"x")], end_stream=True)
+        obs.increment_flow_control_window(2 ** 30)
+        obs.increment_flow_control_window(2 ** 30, 1)
+        obs.data_to_send()
+        got = ends = 0
+        try:
+            for ev in obs.receive_data(b"".join(d for _, k, d in res["events"] if k == "data" and d)):
+                if isinstance(ev, h2.events.DataReceived) and ev.stream_id == 1:
+                    got += len(ev.data)
+                elif isinstance(ev, h2.events.StreamEnded) and ev.stream_id == 1:
+                    ends += 1
+        except Exception:  # noqa: BLE001
+            ends = -1
+        ca = closed_at(res)
+        if got != first + last or ends != 1:
+            fails.append({"signature": "h2-slow-client-truncated", "backend": backend, "delivered": got, "expected": first + last, "ends": ends,
+                          "closed_at": ca, "desc": desc})
+        elif ca is not None and ca < stall - 1e-6:
+            fails.append({"signature": "busy-h2-connection-closed-by-timer", "backend": backend, "closed_at": ca, "desc": desc})
+    return desc, fails
+
+
 def terminate_case(seed):
     rng = random.Random(seed)
     T = 30.0
@@ -380,7 +439,7 @@ def timer_case(res, T):
 
 def run(ctx):
     fns = [(h1_case, ctx.scale(360, 2000, 600)), (loss_case, ctx.scale(240, 1200, 400)), (ws_case, ctx.scale(48, 300, 100)),
-           (h2_case, ctx.scale(48, 300, 100)), (h2_blocked_eof_case, ctx.scale(16, 100, 30)), (h1_close_pipelined_case, ctx.scale(16, 100, 30)), (terminate_case, ctx.scale(12, 100, 40))]
+           (h2_case, ctx.scale(48, 300, 100)), (h2_blocked_eof_case, ctx.scale(16, 100, 30)), (h2_slow_client_case, ctx.scale(8, 60, 20)), (h1_close_pipelined_case, ctx.scale(16, 100, 30)), (terminate_case, ctx.scale(12, 100, 40))]
     oracle_failures, descs = [], []
     for fn, n in fns:
         for i in range(n):
